@@ -169,6 +169,12 @@ class Ctx:
         try:
             from .absint import Interp
             top_calls, steps = Interp.TOP_CALLS, Interp.TOTAL_STEPS
+            from .absint import ARITH_ON_ORDINALS
+            if ARITH_ON_ORDINALS:
+                self.analysed["arithmetic-on-ordinals"] = sorted(ARITH_ON_ORDINALS)
+                self.assumptions.append(
+                    "cardinalities take part in arithmetic (" + ", ".join(sorted(ARITH_ON_ORDINALS)) + "): those "
+                    "formulas are decided on every point of the box but not by the order-type argument")
         except Exception:  # pragma: no cover
             top_calls, steps = 0, 0
         ev = {
